@@ -21,6 +21,8 @@ func hx(b []byte) string {
 	return vh.Hex(b)
 }
 
+var wfChecked, wfViolations int
+
 var ttNames = map[pxml.TokenType]int{pxml.ErrorToken: 0, pxml.CommentToken: 1, pxml.DOCTYPEToken: 2, pxml.CDATAToken: 3, pxml.TextToken: 4,
 	pxml.StartTagToken: 5, pxml.StartTagPIToken: 6, pxml.AttributeToken: 7, pxml.StartTagCloseToken: 8, pxml.StartTagCloseVoidToken: 9,
 	pxml.StartTagClosePIToken: 10, pxml.EndTagToken: 11}
@@ -42,6 +44,15 @@ func modelLines(input string, keep bool) (in, out string, helpersIn, helpersOut 
 		case pxml.TextToken:
 			text = append([]byte{}, d...)
 			d = parse.ReplaceMultipleWhitespaceAndEntities(append([]byte{}, d...), xmlmin.EntitiesMap, xmlmin.TextRevEntitiesMap)
+			// hypothesis wf_tokens of Props/C06.v, measured on every token: data not empty; raw starts with white space => data does
+			wfChecked++
+			if len(d) == 0 || (len(text) > 0 && parse.IsWhitespace(text[0]) && !parse.IsWhitespace(d[0])) {
+				wfViolations++
+			}
+			if len(helpersIn) < 6 {
+				helpersIn = append(helpersIn, "ws_collapse\t"+hx(text))
+				helpersOut = append(helpersOut, hx(parse.ReplaceMultipleWhitespace(append([]byte{}, text...))))
+			}
 		case pxml.AttributeToken:
 			if len(av) >= 2 && av[0] == '"' && av[len(av)-1] == '"' {
 				inner := append([]byte{}, av[1:len(av)-1]...)
